@@ -981,3 +981,11 @@ M("C14-benign-bit-width-default-first", "C14", "src/cppparser/cppInstance.cxx",
 M("C14-interrogate-type-flag-uninitialised", "C14", "src/interrogatedb/interrogateFunctionWrapper.I",
   "  _return_value_destructor = 0;\n", "",
   expect="R14.6|InterrogateFunctionWrapper(")
+
+M("C11-rename-after-recording", "C11", "src/interrogate/interfaceMaker.cxx",
+  "    other_remap->_hash +=\n      InterrogateBuilder::hash_string(other_remap->_function_signature, 11);\n",
+  "    other_remap->_hash +=\n      InterrogateBuilder::hash_string(other_remap->_function_signature, 11);\n    other_remap->_unique_name =\n      get_unique_prefix() + _def->library_hash_name + other_remap->_hash;\n",
+  expect="R11.6|InterfaceMaker::hash_function_signature|writes|_unique_name")
+M("C11-benign-name-locals", "C11", "src/interrogate/interfaceMaker.cxx",
+  "      remap->_unique_name =\n        get_unique_prefix() + _def->library_hash_name + remap->_hash;", "      const std::string tail = _def->library_hash_name + remap->_hash;\n      remap->_unique_name = get_unique_prefix() + tail;",
+  benign=True)
